@@ -10,7 +10,7 @@ import os
 from nvlib import engine as E
 from nvlib.check import Prop
 
-HEAD = ['#include "/include/vcommon.h"', 'string oid = "?";', 'int vsel;',
+HEAD = ['#include "/include/vcommon.h"', 'string oid = "?";', 'int vsel; GLOBALS',
         'void create () { seteuid (getuid ()); CREATE }',
         'void set_oid (string s) { oid = s; "/vreg"->reg (s, this_object ()); }',
         'void cb (string s) { VL ("cb " + s); }',
@@ -27,6 +27,7 @@ class Builder:
         self.n = 0
         self.files = {"t": {"fns": [], "vname": [], "create": ""}}
         self.prep = []
+        self.globals = []
         self.budget = budget
         self.kinds = {}
         self.in_rep = 0
@@ -76,7 +77,8 @@ class Builder:
                  ("efunp", 2), ("mapfp", 3), ("mapstr", 2), ("filterfp", 2), ("sortfp", 2), ("unique", 2),
                  ("catch", 7), ("raise", 3), ("throw", 2), ("safe", 3 if main and not self.in_safe else 0), ("setcg", 2 if main and self.use_setcg else 0),
                  ("install", 2 if main and not self.use_setcg else 0), ("installbad", 2 if main and not self.use_setcg else 0), ("load", 2 if main and not self.in_rep else 0),
-                 ("clone", 2 if main else 0)]
+                 ("clone", 2 if main else 0),
+                 ("inithook", 3 if main and not self.in_rep else 0), ("dhook", 3 if main and not self.in_rep else 0)]
         k = rng.weighted(kinds)
         self.count(k)
         t = "t"
@@ -197,6 +199,33 @@ class Builder:
                 self.prep.append('load_object ("%s");' % path)
                 stmts.append('new ("%s");' % path)
             ops.append("(tmp 1 (load (call other %s 0 0 (call local %s 0 0 %s))))" % (t, t, " ".join(o)))
+        elif k == "inithook":
+            # an object with an init() hook moves itself into the room where the living `mob` stands:
+            # move_object() sets command_giver = mob and applies init() in the object
+            i = self.fresh()
+            name = "I%d" % i
+            self.files[name] = {"fns": [], "vname": [], "create": "", "extra": []}
+            b, o = self.sub(name, depth)
+            f = self.fn(name, b)
+            path = "/c05/gen/%s" % name
+            self.files[name]["extra"] = ["void init () { %s (); }" % f, 'void go () { move_object ("/c05/room"); }']
+            self.prep.append('if (p0 = find_object ("%s")) destruct (p0); load_object ("%s");' % (path, path))
+            stmts.append('"%s"->go ();' % path)
+            ops.append("(call other %s 0 0 (tmp 1 (withcg mob (call other %s 0 0 (call local %s 0 0 %s)))))" % (t, t, t, " ".join(o)))
+        elif k == "dhook":
+            # destruct() of a container applies move_or_destruct() in its content under restrict_destruct
+            i = self.fresh()
+            name = "D%d" % i
+            self.files[name] = {"fns": [], "vname": [], "create": "", "extra": []}
+            b, o = self.sub(name, depth)
+            f = self.fn(name, b)
+            path = "/c05/gen/%s" % name
+            self.files[name]["extra"] = ["void move_or_destruct (object d) { %s (); }" % f, "void enter (object b) { move_object (b); }"]
+            self.globals.append("object box%d;" % i)
+            self.prep.append('if (p0 = find_object ("%s")) destruct (p0); if (box%d) destruct (box%d); '
+                             'box%d = new ("/c05/box"); load_object ("%s"); "%s"->enter (box%d);' % (path, i, i, i, path, path, i))
+            stmts.append("destruct (box%d);" % i)
+            ops.append("(tmp 1 (dhook %s (call other %s 1 1 (call local %s 0 0 %s))))" % (t, t, t, " ".join(o)))
         return False
 
     def source(self, name):
@@ -205,7 +234,9 @@ class Builder:
         protos = []
         for fn in f["fns"]:
             protos.append(fn.split("{", 1)[0].strip() + ";")
-        lines = HEAD[:3] + protos + [l.replace("CREATE", f["create"]) for l in HEAD[3:]]
+        gl = " ".join(self.globals) if name == "t" else ""
+        lines = [l.replace("GLOBALS", gl) for l in HEAD[:3]] + protos + [l.replace("CREATE", f["create"]) for l in HEAD[3:]]
+        lines += f.get("extra", [])
         lines.append("string vname () { %s return \"n\"; }" % " ".join(f["vname"]))
         lines += f["fns"]
         if name == "t":
@@ -222,7 +253,8 @@ def case_from(cid, files, run_src_ops, extra_head=(), tail=(), inject="inject t 
     for name, src in files.items():
         path = "/c05/gen/%s.c" % name
         lines.append("src %s %s" % (path, hexs(src)))
-    lines += ["load probe /c05/probe", "load t /c05/gen/t", "load u1 /c05/user", "user u1", "setcg u1"]
+    lines += ["load probe /c05/probe", "load t /c05/gen/t", "load u1 /c05/user", "user u1", "load room /c05/room",
+              "load mob /c05/mob", "vapply mob enter", "setcg u1"]
     lines += list(extra_head)
     lines.append("# ops " + run_src_ops)
     lines.append(inject)
@@ -244,7 +276,7 @@ def build_case(rng, cid, budget):
 
 
 def fixed_case(cid, run_body, ops, fns=(), prep="", tail=(), inject="inject t run", vname=""):
-    src = "\n".join([l.replace("CREATE", "") for l in HEAD] + list(fns) +
+    src = "\n".join([l.replace("CREATE", "").replace("GLOBALS", "") for l in HEAD] + list(fns) +
                     ['string vname () { %s return "n"; }' % vname,
                      "void prep () { object p0; vsel = 0; %s }" % prep,
                      "mixed run () { %s %s return 1; }" % (DECL, run_body)]) + "\n"
